@@ -22,27 +22,12 @@ metaclasses, relate instances and perform navigations and queries.
 
 import collections.abc
 import logging
-import os
 import xtuml
 
 from functools import partial
 
 
-def _verif_traced(op):
-    '''
-    Verification hook. Unless the environment variable PYXTUML_VERIF is set,
-    the decorated function is left untouched; otherwise it is handed to the
-    tracer of the verification harness (module xtuml_verif_hook), which
-    records each top-level call together with the model state around it.
-    '''
-    def decorate(fn):
-        if not os.environ.get('PYXTUML_VERIF'):
-            return fn
-        
-        import xtuml_verif_hook
-        return xtuml_verif_hook.traced(op, fn)
-    
-    return decorate
+from xtuml.tools import _verif_traced
 
 
 logger = logging.getLogger(__name__)
